@@ -34,7 +34,8 @@ def strategy(draw, tier="quick"):
     case = {"which": which, "p": p}
     if which in ("bh", "wn"):
         case.update(exclude_water=draw(st.booleans()), sidechain_only=draw(st.integers(0, 3)) == 0,
-                    periodic=draw(st.booleans()), cell=draw(st.sampled_from([None, "ortho", "tric"])))
+                    periodic=draw(st.booleans()), cell=draw(st.sampled_from([None, "ortho", "tric"])),
+                    scatter=draw(st.sampled_from(["residues", "atoms"])))
     if which == "bh":
         nf = p["nf"]
         case.update(freq=draw(st.sampled_from([0.0, 0.1, 0.5, 1.0] + [k / nf for k in range(nf + 1)])),
@@ -53,13 +54,20 @@ def _periodic_setup(t, case):
     x = t.xyz.astype(np.float64) + 2.0
     shifted = False
     if case.get("periodic"):
-        for r in t.topology.residues:
-            sh = rng.integers(-1, 2, 3)
-            if sh.any():
-                shifted = True
-            idx = [a.index for a in r.atoms]
+        if case.get("scatter") == "atoms":
+            # every atom wrapped on its own (as simulation engines write them): a donor and its hydrogen may sit in different images
+            sh = rng.integers(-1, 2, (t.n_atoms, 3))
+            shifted = bool(sh.any())
             for f in range(nf):
-                x[f, idx] += sh @ Hs[f]
+                x[f] += sh @ Hs[f]
+        else:
+            for r in t.topology.residues:
+                sh = rng.integers(-1, 2, 3)
+                if sh.any():
+                    shifted = True
+                idx = [a.index for a in r.atoms]
+                for f in range(nf):
+                    x[f, idx] += sh @ Hs[f]
     t2 = gen.make_traj(x.astype(np.float32), cells, top=t.topology)
     Hs = [gen.box_vectors(t2.unitcell_lengths[f], t2.unitcell_angles[f]) for f in range(nf)]
     return t2, Hs, shifted
